@@ -17,8 +17,8 @@ mod props_more;
 mod props_ref;
 mod props_sim;
 mod props_simtimers;
-mod simsut;
 mod refmodel;
+mod simsut;
 mod sup;
 
 use sup::{Engine, Tier};
